@@ -1,0 +1,52 @@
+//go:build verif
+
+// Contracts checked by /verif/gvc (contract-based deductive verification).
+// This file contains comments only; it is compiled only under the "verif" build tag.
+
+package trie
+
+// C07 — the retained-message trie. rNodesOK: every live node has its children map, children point back to their
+// parent, no two nodes share a children map.
+//@ spec func rNodesOK() bool = (forall n *topicNode :: live(n) ==> n.children != nil) && (forall n *topicNode, k string :: live(n) && has(n.children, k) ==> live(n.children[k]) && n.children[k].parent == n) && (forall n *topicNode, m *topicNode :: live(n) && live(m) && n != m ==> n.children != m.children)
+
+//@ func newNode inline
+// newChild: one new node, with an empty children map, linked to its parent (the parent does not know it yet).
+//@ func (*topicNode).newChild
+//@ props C07
+//@ requires [C07] t != nil
+//@ ensures [C07] result != nil && isfresh(result) && live(result) && result.parent == t && result.msg == nil && result.children != nil && isfresh(result.children) && (forall k string :: !has(result.children, k))
+//@ ensures [C07] forall n *topicNode :: live(n) && isfresh(n) ==> n == result
+
+// addRetainMsg: the message is kept at one node, which carries the topic name; the message of no other node changes;
+// no link is removed.
+//@ func (*topicTrie).addRetainMsg
+//@ props C07
+//@ requires [C07] t != nil && live(t) && message != nil && rNodesOK()
+//@ modifies heap
+//@ ensures [C07] rNodesOK()
+//@ ensures [C07] exists n *topicNode :: live(n) && n.msg == message && n.topicName == topicName
+//@ ensures [C07] forall n *topicNode, m *topicNode :: live(n) && live(m) && !isfresh(n) && !isfresh(m) && n.msg != old(n.msg) && m.msg != old(m.msg) ==> n == m
+//@ ensures [C07] forall n *topicNode :: live(n) && !isfresh(n) && n.msg != old(n.msg) ==> n.msg == message
+//@ ensures [C07] forall n *topicNode, k string :: live(n) && !isfresh(n) && old(has(n.children, k)) ==> has(n.children, k) && n.children[k] == old(n.children[k])
+//@ loop 1 invariant pNode != nil && live(pNode)
+//@ loop 1 invariant forall n *topicNode :: live(n) ==> n.children != nil
+//@ loop 1 invariant forall n *topicNode, k string :: live(n) && has(n.children, k) ==> live(n.children[k]) && n.children[k].parent == n
+//@ loop 1 invariant forall n *topicNode, m *topicNode :: live(n) && live(m) && n != m ==> n.children != m.children
+//@ loop 1 invariant forall n *topicNode :: live(n) && !isfresh(n) ==> n.msg == old(n.msg)
+//@ loop 1 invariant forall n *topicNode :: live(n) && isfresh(n) ==> n.msg == nil
+//@ loop 1 invariant forall n *topicNode, k string :: live(n) && !isfresh(n) && old(has(n.children, k)) ==> has(n.children, k) && n.children[k] == old(n.children[k])
+
+// remove: the message of at most one node is cleared, no other message changes; at most one link is removed, and
+// only the link of a node that has no child and (now) no message — the retained messages of the levels above stay
+// reachable.
+//@ func (*topicTrie).remove
+//@ props C07
+//@ requires [C07] t != nil && live(t) && rNodesOK()
+//@ modifies heap
+//@ ensures [C07] rNodesOK()
+//@ ensures [C07] forall n *topicNode :: live(n) ==> n.msg == old(n.msg) || n.msg == nil
+//@ ensures [C07] forall n *topicNode, m *topicNode :: live(n) && live(m) && n.msg != old(n.msg) && m.msg != old(m.msg) ==> n == m
+//@ ensures [C07] forall n *topicNode, k string :: live(n) && has(n.children, k) ==> old(has(n.children, k)) && n.children[k] == old(n.children[k])
+//@ ensures [C07] forall n *topicNode, k string :: live(n) && old(has(n.children, k)) && !has(n.children, k) ==> old(n.children[k]).msg == nil && (forall j string :: !has(old(n.children[k]).children, j))
+//@ ensures [C07] forall n *topicNode, k string, m *topicNode, j string :: live(n) && live(m) && old(has(n.children, k)) && !has(n.children, k) && old(has(m.children, j)) && !has(m.children, j) ==> n == m && k == j
+//@ loop 1 invariant pNode != nil && live(pNode) && rNodesOK() && (rangeindex >= 0 ==> live(pNode.parent) && has(pNode.parent.children, topicSlice[rangeindex]) && pNode.parent.children[topicSlice[rangeindex]] == pNode)
